@@ -51,8 +51,10 @@ class HTTPProxyConnectionPool(ConnectionPool):
 
     @asyncio.coroutine
     def acquire(self, host, port, use_ssl=False, host_key=None):
-        yield from self.acquire_proxy(host, port, use_ssl=use_ssl,
-                                      host_key=host_key)
+        connection = yield from self.acquire_proxy(
+            host, port, use_ssl=use_ssl, host_key=host_key)
+
+        return connection
 
     @asyncio.coroutine
     def acquire_proxy(self, host, port, use_ssl=False, host_key=None,
